@@ -194,6 +194,66 @@ func runC15(c *Ctx) {
 		if ps == nil {
 			continue
 		}
+		if bis, _ := lowerBoundBisection(ps); bis != nil {
+			// the bisection of sort.Search written out
+			slice := paramOf(fi, 0)
+			good, whyB := isLenOf(bis.N, slice), "does not search the whole length of the slice"
+			isElem := func(t *Term) bool {
+				return t != nil && t.Op == "load" && t.Args[0].Op == "iaddr" && t.Args[0].Args[0].Key() == slice.Key() && stripConv(t.Args[0].Args[1]).Key() == bis.Mid.Key()
+			}
+			// before(cd): the condition says "the probed element is before the answer" (elem < target resp. less(elem))
+			before := func(cd *Cond) (known, isBefore bool) {
+				if cd == nil {
+					return false, false
+				}
+				if bs.fn {
+					t, pol := stripNot(cd.T, cd.Pol)
+					if t.Op == "call" && t.Sym == "dyn" && len(t.Args) == 2 && isParam(t.Args[0], 1) && isElem(t.Args[1]) {
+						return true, pol
+					}
+					return false, false
+				}
+				r := cd.Rel()
+				value := paramOf(fi, 1)
+				if r.B == nil {
+					return false, false
+				}
+				switch {
+				case isElem(r.A) && r.B.Key() == value.Key():
+					switch r.Op {
+					case "<":
+						return true, true
+					case ">=":
+						return true, false
+					}
+				case isElem(r.B) && r.A.Key() == value.Key():
+					switch r.Op {
+					case ">":
+						return true, true
+					case "<=":
+						return true, false
+					}
+				}
+				return false, false
+			}
+			if good {
+				k1, b1 := before(bis.probeCond(bis.Up))
+				k2, b2 := before(bis.probeCond(bis.Down))
+				if !(k1 && b1 && k2 && !b2) {
+					good, whyB = false, "the bisection does not move lo past the probe exactly when the probed element is before the target"
+				}
+			}
+			for _, p := range ps {
+				for i := range p.Events {
+					e := &p.Events[i]
+					if (e.Kind == "call" && e.Name != "builtin.len" && !(e.Name == "dyn" && bs.fn)) || (e.Kind == "store" && e.Addr.Op != "alloc") {
+						good, whyB = false, "unexpected effect "+e.String()
+					}
+				}
+			}
+			R.Decide(good, rule, fi.Name, "predicate", c.pos(fi), "hand-written bisection of sort.Search over len(slice): the first position whose element is not before the target", whyB)
+			continue
+		}
 		if len(ps) != 1 {
 			R.Unproven(rule, fi.Name, "predicate", c.pos(fi), fmt.Sprintf("%d paths; expected the single delegation to sort.Search (an extra fast path must be shown to return the lower bound, which these rules cannot do)", len(ps)))
 			continue
